@@ -93,6 +93,7 @@ pub fn run_c07(cx: &Ctx) -> i32 {
                     // (d) boundedness: instructions and stack within a product of limit, pattern and text
                     let bound = (b as u64 + 2) * (chars + 2) * (prog_len + 2) * 4;
                     t.max("max_insns_per_run", st.insns);
+                    t.max("max_permille_of_instruction_bound", st.insns * 1000 / bound.max(1));
                     t.max("max_backtracks_per_run", st.backtracks);
                     t.max("max_peak_stack", st.peak_stack as u64);
                     if st.insns > bound {
